@@ -71,7 +71,11 @@ def gen_decl(draw, name, classes, keywords=True, rest=True, untyped_ret=False, a
     elif k == 2:
         # Self as member of a union: resolved per receiver, never stored back into the declaration
         ret = ["Self", draw(st.sampled_from(["NilClass", "Int", "String"]))]
-    return {"name": name, "args": args, "ret": ret, "block": []}
+    d = {"name": name, "args": args, "ret": ret, "block": []}
+    if draw(st.integers(0, 7)) == 0:
+        # the call rebinds its receiver to the result (is_destructive): a flag that sits next to the return type notation
+        d["destructive"] = True
+    return d
 
 
 @st.composite
@@ -185,6 +189,8 @@ def render_ret(types, notation=None):
 
 def render_decl(d, notation=None):
     out = {"name": d["name"], "arguments": [render_arg(a, notation) for a in d["args"]], "return_type": render_ret(d["ret"], notation)}
+    if d.get("destructive"):
+        out["return_type"]["is_destructive"] = True
     if d.get("block"):
         out["block_parameters"] = list(d["block"])
     return out
